@@ -8,6 +8,7 @@ import (
 
 	"pgregory.net/rapid"
 
+	"vh/deferchk"
 	"vh/kit"
 	"vh/opgen"
 	"vh/oracle"
@@ -192,6 +193,59 @@ func genOp(t *rapid.T) Case {
 // foreign-type} is enumerated.
 func TestSingleFaults(t *testing.T) {
 	vfrun.Run(t, vfrun.Prop[Case]{Property: "C04", Name: "TestSingleFaults", Gen: genOp, Check: check}, vfrun.N(500, 8000))
+}
+
+// TestDeferredFaults: operations with @defer; every single fault point (error / panic) is injected,
+// the whole payload sequence is read and merged, and compared with the reference (a failure inside a
+// deferred group nulls the object the group belongs to); a panic runs the recover hook once.
+func TestDeferredFaults(t *testing.T) {
+	type DCase struct {
+		deferchk.Case
+	}
+	checkD := func(c DCase) *vfrun.Failure {
+		srvs, err := kit.Servers(c.Project)
+		if err != nil {
+			return vfrun.Failf("harness.no-project", "%v", err)
+		}
+		pr, f := kit.Prepare(srvs[0], c.Case.Case)
+		if f != nil {
+			return f
+		}
+		ref0 := kit.Reference(srvs[0], pr, c.Case.Case.Plan())
+		if f := deferchk.Check(c.Case); f != nil {
+			return f
+		}
+		for _, cd := range kit.Candidates(ref0) {
+			if cd.Kind != "R" {
+				continue
+			}
+			for _, kind := range []plan.Kind{plan.Error, plan.Panic} {
+				fc := c.Case
+				fc.Overrides = map[string]plan.Outcome{}
+				for k, v := range c.Overrides {
+					fc.Overrides[k] = v
+				}
+				fc.Overrides[cd.Key] = plan.Outcome{Kind: kind, Msg: "fault!"}
+				if kind == plan.Panic {
+					fc.WantRecovers = 1
+				}
+				kit.Journal(map[string]any{"case": fc})
+				if f := deferchk.Check(fc); f != nil {
+					f.Msg = fmt.Sprintf("single fault %s@%s in a query with @defer: %s", kind, cd.Key, f.Msg)
+					return f
+				}
+				vfrun.Label(fmt.Sprintf("deferred-op-fault:%s", kind))
+				vfrun.NonTrivial(fmt.Sprintf("D|%s|%d|%s|%s", c.Query, c.PlanSeed, cd.Key, kind))
+			}
+		}
+		return nil
+	}
+	vfrun.Run(t, vfrun.Prop[DCase]{Property: "C04", Name: "TestDeferredFaults",
+		Gen: func(t *rapid.T) DCase {
+			c := deferchk.Gen(t)
+			c.Overrides = nil
+			return DCase{c}
+		}, Check: checkD}, vfrun.N(250, 5000))
 }
 
 // TestMultiFaults: random fault sets including panics.
